@@ -37,6 +37,7 @@ LIM = {'max_incomplete_connections': 2, 'max_completed_connections': 3, 'max_con
        # replies (as every real configuration does) without a call ever timing out here
        'reply_timeout': 100000000}
 LIMITS_EXCEEDED = b'org.freedesktop.DBus.Error.LimitsExceeded'
+WIDER = ('max_names_per_connection', 'max_match_rules_per_connection', 'max_replies_per_connection')
 
 
 class Session(BusSession):
@@ -65,11 +66,29 @@ class Session(BusSession):
                         raise RuntimeError('prefill failed at %r: %s' % (op, vs[0].what))
 
     def lim_names(self):
-        # with the two names of the small alphabet the limit must be 2 (unique name + 1), otherwise no request could exceed it
-        return 2 if self.params.get('small') else LIM['max_names_per_connection']
+        return self.lim['max_names_per_connection']
+
+    def limits_for(self, which):
+        # with the two names of the small alphabet the names limit must be 2 (unique name + 1), otherwise no request could exceed it
+        base = dict(LIM, max_names_per_connection=2 if self.params.get('small') else LIM['max_names_per_connection'])
+        if which == 'wide':
+            # a reload that RAISES the per-connection limits (lowering one below what is already held is not specified)
+            for k in WIDER:
+                base[k] += 1
+        return base
 
     def config(self):
-        return B.make_config(limits=dict(LIM, max_names_per_connection=self.lim_names()))
+        self.which = 'base'
+        self.lim = self.limits_for('base')
+        return B.make_config(limits=self.lim)
+
+    def fits_base(self):
+        b = self.limits_for('base')
+        for l in SLOTS:
+            if self.st[l] == 'completed' and (self.names_count(l) > b['max_names_per_connection'] or sum(self.rules[l].values()) > b['max_match_rules_per_connection']
+                                              or sum(1 for x in self.calls if x[0] == l) > b['max_replies_per_connection']):
+                return False
+        return True
 
     # ------------------------------------------------------------------
     def n_incomplete(self):
@@ -122,6 +141,13 @@ class Session(BusSession):
         if any(self.st[l] == 'incomplete' for l in SLOTS):
             ops.append(['advance', 20000])
         ops.append(['reload'])       # same limits re-read: counters, lists and the capacity in use stay what they are
+        # a reload that changes the limits: from then on the NEW values decide
+        if not self.params.get('prefill'):
+            pass            # (only in the variant that starts with established connections: the product with the connect/auth histories adds nothing)
+        elif self.which == 'base':
+            ops.append(['reconf', 'wide'])
+        elif self.fits_base():
+            ops.append(['reconf', 'base'])
         return ops
 
     # ------------------------------------------------------------------
@@ -151,7 +177,7 @@ class Session(BusSession):
 
     def accept_waiting(self, out, opdesc):
         """After capacity was freed the listener accepts queued connections FIFO."""
-        while self.waitq and self.n_incomplete() < LIM['max_incomplete_connections']:
+        while self.waitq and self.n_incomplete() < self.lim['max_incomplete_connections']:
             l = self.waitq.pop(0)
             self.st[l] = 'incomplete'
             self.age[l] = 0
@@ -175,7 +201,7 @@ class Session(BusSession):
             got_ok = (self.hsbuf.get(l, b'')[:3] == b'OK ')
             if self.st[l] == 'waiting' and (got_ok or self.hsbuf.get(l)):
                 out.append(Violation('limit-exceeded', 'max_incomplete_connections', '%s: connection %s was accepted although %d incomplete connections already existed' %
-                                     (opdesc, l, LIM['max_incomplete_connections']), None))
+                                     (opdesc, l, self.lim['max_incomplete_connections']), None))
             if self.st[l] == 'incomplete' and not got_ok and not self.eof.get(l):
                 out.append(Violation('refused-below-limit', 'accept', '%s: connection %s was not accepted/authenticated although capacity is free (got %r)' % (opdesc, l, self.hsbuf.get(l)), None))
 
@@ -200,7 +226,7 @@ class Session(BusSession):
             hexuid = str(uid).encode().hex().encode()
             self.bus.send(c, b'\0AUTH EXTERNAL ' + hexuid + b'\r\nBEGIN\r\n')
             self.bus.pump()
-            if self.n_incomplete() < LIM['max_incomplete_connections'] and not self.waitq:
+            if self.n_incomplete() < self.lim['max_incomplete_connections'] and not self.waitq:
                 self.st[l] = 'incomplete'
                 self.age[l] = 0
                 self.hit('conn-accepted')
@@ -217,7 +243,7 @@ class Session(BusSession):
             before = self.impl_key()
             self.send(l, R.bus_call(s, 'Hello'))
             rep = self.take_reply(l, s)
-            ok = self.n_completed() < LIM['max_completed_connections'] and self.n_uid(SLOTS[l]) < LIM['max_connections_per_user']
+            ok = self.n_completed() < self.lim['max_completed_connections'] and self.n_uid(SLOTS[l]) < self.lim['max_connections_per_user']
             if ok:
                 self.hit('hello-ok')
                 if rep is None or rep.kind != R.MT_RETURN:
@@ -233,7 +259,7 @@ class Session(BusSession):
                 self.read_handshake(out, desc)
                 self.check_handshakes(out, desc)
             else:
-                which = 'max_completed_connections' if self.n_completed() >= LIM['max_completed_connections'] else 'max_connections_per_user'
+                which = 'max_completed_connections' if self.n_completed() >= self.lim['max_completed_connections'] else 'max_connections_per_user'
                 self.hit('hello-over-' + which)
                 if rep is None or rep.kind != R.MT_ERROR or rep.errname != LIMITS_EXCEEDED:
                     out.append(Violation('limit-exceeded', which, '%s: Hello answered %r with %d completed connections, %d of this user' % (desc, rep, self.n_completed(), self.n_uid(SLOTS[l])), None))
@@ -269,6 +295,20 @@ class Session(BusSession):
             self.read_handshake(out, desc)
             self.check_handshakes(out, desc)
             self.hit('disc-' + was)
+        elif kind == 'reconf':
+            self.which = op[1]
+            self.lim = self.limits_for(op[1])
+            before = re.sub(r'\|?limits [^|]*', '', self.impl_key())
+            self.bus.reload(B.make_config(limits=self.lim))
+            self._distribute(self.bus.recvall())
+            self.hit('reload-changed-limits')
+            for l in SLOTS:
+                if self.inbox.get(l) or (self.eof.get(l) and self.slots.get(l) is not None):
+                    out.append(Violation('reload-visible', 'limits', '%s: %s noticed the reload (%r, eof=%s)' % (desc, l, self.inbox.get(l)[:1], self.eof.get(l)), None))
+            if re.sub(r'\|?limits [^|]*', '', self.impl_key()) != before and not out:
+                out.append(Violation('reload-visible', 'state', '%s: a reload that only changes limits changed what connections hold' % desc, None))
+            self.read_handshake(out, desc)
+            self.check_handshakes(out, desc)
         elif kind == 'reload':
             self.reload_same(out, desc)
             self.read_handshake(out, desc)
@@ -279,7 +319,7 @@ class Session(BusSession):
             expired = []
             for l in list(self.age):
                 self.age[l] += dt
-                if self.age[l] > LIM['auth_timeout']:
+                if self.age[l] > self.lim['auth_timeout']:
                     expired.append(l)
             for l in expired:
                 self.hit('auth-timeout')
@@ -306,7 +346,7 @@ class Session(BusSession):
             mine = sum(1 for x in self.calls if x[0] == l)
             got_call = [o for o in self.inbox.get(t, []) if o.kind == R.MT_CALL and o.serial == ser and o.sender == self.uname[l]]
             errs = [o for o in self.inbox.get(l, []) if o.kind == R.MT_ERROR and o.rserial == ser]
-            if mine >= LIM['max_replies_per_connection']:
+            if mine >= self.lim['max_replies_per_connection']:
                 self.hit('call-over-limit')
                 if got_call or len(errs) != 1 or errs[0].errname != LIMITS_EXCEEDED:
                     out.append(Violation('limit-exceeded', 'max_replies_per_connection', '%s: %s already has %d unanswered calls; the call was %s, errors %r' % (desc, l, mine, 'delivered' if got_call else 'not delivered', errs), None))
@@ -315,7 +355,7 @@ class Session(BusSession):
             else:
                 self.hit('call-ok')
                 if len(got_call) != 1 or errs:
-                    out.append(Violation('refused-below-limit', 'call', '%s: %s has %d unanswered calls (limit %d) but the call was not delivered: errors %r' % (desc, l, mine, LIM['max_replies_per_connection'], errs), None))
+                    out.append(Violation('refused-below-limit', 'call', '%s: %s has %d unanswered calls (limit %d) but the call was not delivered: errors %r' % (desc, l, mine, self.lim['max_replies_per_connection'], errs), None))
                 else:
                     self.calls.append([l, t, ser])
         elif kind == 'preply':
@@ -363,7 +403,7 @@ class Session(BusSession):
             before = self.impl_key()
             if kind == 'add':
                 s, rep = self.method(l, 'AddMatch', [R.S(r)])
-                if sum(self.rules[l].values()) >= LIM['max_match_rules_per_connection']:
+                if sum(self.rules[l].values()) >= self.lim['max_match_rules_per_connection']:
                     self.hit('add-over-limit')
                     if rep is None or rep.kind != R.MT_ERROR or rep.errname != LIMITS_EXCEEDED:
                         out.append(Violation('limit-exceeded', 'max_match_rules_per_connection', '%s: AddMatch answered %r with %d rules held' % (desc, rep, sum(self.rules[l].values())), None))
@@ -390,7 +430,7 @@ class Session(BusSession):
             m = R.bus_call(s, 'GetId', [])
             # pad with an unknown-to-the-method body so that the total size is exact
             base = len(R.encode_message(R.method_call(s, R.BUS, R.BUS_PATH, R.BUS, 'GetId', [(b'ay', [])])))
-            want = LIM['max_message_size'] + delta
+            want = self.lim['max_message_size'] + delta
             m = R.method_call(s, R.BUS, R.BUS_PATH, R.BUS, 'GetId', [(b'ay', [(b'y', 0)] * (want - base))])
             data = R.encode_message(m)
             assert len(data) == want, (len(data), want)
@@ -402,7 +442,7 @@ class Session(BusSession):
             if delta > 0:
                 self.hit('big-over')
                 if not self.eof.get(l):
-                    out.append(Violation('limit-exceeded', 'max_message_size', '%s: a %d-byte message did not get its sender disconnected (limit %d)' % (desc, want, LIM['max_message_size']), None))
+                    out.append(Violation('limit-exceeded', 'max_message_size', '%s: a %d-byte message did not get its sender disconnected (limit %d)' % (desc, want, self.lim['max_message_size']), None))
                 self.st[l] = 'closed'
                 self.slots[l] = None
                 self.reg.drop_connection(l)
@@ -413,7 +453,7 @@ class Session(BusSession):
                 self.hit('big-ok')
                 rep = self.take_reply(l, s)
                 if self.eof.get(l) or rep is None:
-                    out.append(Violation('refused-below-limit', 'max_message_size', '%s: a %d-byte message (limit %d) was not processed: eof=%s reply=%r' % (desc, want, LIM['max_message_size'], self.eof.get(l), rep), None))
+                    out.append(Violation('refused-below-limit', 'max_message_size', '%s: a %d-byte message (limit %d) was not processed: eof=%s reply=%r' % (desc, want, self.lim['max_message_size'], self.eof.get(l), rep), None))
         for x in list(self.inbox):
             self.take(x)
         if not out:
@@ -427,7 +467,7 @@ class Session(BusSession):
         nc, lc, ni, li = (int(x) for x in m.groups())
         if nc != lc or ni != li:
             out.append(Violation('counter-mismatch', 'connections', '%s: n_completed=%d list=%d n_incomplete=%d list=%d' % (desc, nc, lc, ni, li), None))
-        if nc > LIM['max_completed_connections'] or ni > LIM['max_incomplete_connections']:
+        if nc > self.lim['max_completed_connections'] or ni > self.lim['max_incomplete_connections']:
             out.append(Violation('limit-exceeded', 'connections-counter', '%s: n_completed=%d n_incomplete=%d' % (desc, nc, ni), None))
         if nc != self.n_completed() or ni != self.n_incomplete():
             out.append(Violation('model-differs', 'connections', '%s: implementation completed=%d incomplete=%d, model %d/%d (%r)' % (desc, nc, ni, self.n_completed(), self.n_incomplete(), self.st), None))
@@ -436,7 +476,7 @@ class Session(BusSession):
         per = Counter(mm.group(1)[1:] for mm in re.finditer(r'\|reply get=(\S+) ', '|' + d))
         mper = Counter(x[0] for x in self.calls)
         for lab in set(per) | set(mper):
-            if per[lab] > LIM['max_replies_per_connection']:
+            if per[lab] > self.lim['max_replies_per_connection']:
                 out.append(Violation('limit-exceeded', 'pending-replies-counter', '%s: %s has %d pending replies recorded' % (desc, lab, per[lab]), None))
             if per[lab] != mper[lab]:
                 out.append(Violation('model-differs', 'pending-replies', '%s: the bus records %d pending replies for %s, the model %d' % (desc, per[lab], lab, mper[lab]), None))
@@ -450,7 +490,7 @@ class Session(BusSession):
                 out.append(Violation('counter-mismatch', 'matchmaker-rules', '%s: %s holds %d rules by its own list (counter %d), the matchmaker has %d of them' % (desc, lab, lr, nr, inmm.get(lab, 0)), None))
             if ns != ls or nr != lr:
                 out.append(Violation('counter-mismatch', 'per-connection', '%s: %s n_services=%d list=%d n_rules=%d list=%d' % (desc, lab, ns, ls, nr, lr), None))
-            if ns > self.lim_names() or nr > LIM['max_match_rules_per_connection']:
+            if ns > self.lim_names() or nr > self.lim['max_match_rules_per_connection']:
                 out.append(Violation('limit-exceeded', 'per-connection-counter', '%s: %s holds %d names, %d rules' % (desc, lab, ns, nr), None))
             l = lab[1:]
             if l in SLOTS:
@@ -460,11 +500,11 @@ class Session(BusSession):
             uid, cnt = int(mm.group(1)), int(mm.group(2))
             if cnt != uids.get(uid, 0):
                 out.append(Violation('counter-mismatch', 'per-user', '%s: per-user table says %d for uid %d, %d completed connections have it' % (desc, cnt, uid, uids.get(uid, 0)), None))
-            if cnt > LIM['max_connections_per_user']:
+            if cnt > self.lim['max_connections_per_user']:
                 out.append(Violation('limit-exceeded', 'max_connections_per_user', '%s: uid %d has %d connections' % (desc, uid, cnt), None))
 
     def key(self):
-        return self.impl_key() + '#' + repr(sorted(self.st.items())) + repr(self.waitq) + repr(sorted(self.age.items())) + self.reg.key()
+        return self.impl_key() + '#' + self.which + '#' + repr(sorted(self.st.items())) + repr(self.waitq) + repr(sorted(self.age.items())) + self.reg.key()
 
 
 def run(ctx):
